@@ -71,7 +71,12 @@ impl StackS {
     pub fn truncate(&mut self, size: usize) { unimplemented!() }
 }
 //@struct file=yarel/src/object.rs name=CallFrame map "*const u8" => "usize"
-//@struct file=yarel/src/object.rs name=ObjFiber keepfields=caller,stack,frames map "Stack<Value, STACK_MAX>" => "StackS" addfield "pub ghost closed_from: int"
+//@struct file=yarel/src/object.rs name=ExcHandler map "*const u8" => "usize"
+impl ExcHandler {
+    #[verifier::external_body]
+    fn has_catch_block(&self) -> bool { unimplemented!() }
+}
+//@struct file=yarel/src/object.rs name=ObjFiber keepfields=caller,stack,frames,return_ip,return_value map "*const u8" => "usize" map "Stack<Value, STACK_MAX>" => "StackS" addfield "pub ghost closed_from: int" addfield "pub ghost has_handler: bool"
 impl ObjFiber {
     //@fn file=yarel/src/object.rs path=ObjFiber::has_finished ret=r
     //@  ensures r == (self.frames@.len() == 0)
@@ -92,6 +97,12 @@ impl ObjFiber {
         ensures final(self).frames == old(self).frames, final(self).caller == old(self).caller,
             final(self).closed_from == old(self).frames@.last().slot_base,
     { unimplemented!() }
+    // object.rs pop_exc_handler: `self.exc_handlers.pop()`; the handler list is not part of this stand-in
+    #[verifier::external_body]
+    fn pop_exc_handler(&mut self) -> (r: Option<ExcHandler>)
+        ensures final(self).frames == old(self).frames, final(self).caller == old(self).caller, final(self).closed_from == old(self).closed_from,
+            old(self).has_handler ==> r is Some,
+    { unimplemented!() }
     #[verifier::external_body]
     fn current_frame(&self) -> (r: Option<&CallFrame>)
         ensures r is Some <==> self.frames@.len() > 0, r matches Some(f) ==> *f == self.frames@.last(),
@@ -109,7 +120,7 @@ fn option_root_as_gc(o: Option<Root<RefCell<ObjFiber>>>) -> (r: Option<Gc<RefCel
 #[verifier::external_body]
 fn clear_caller(current: Option<Root<RefCell<ObjFiber>>>) { unimplemented!() }
 
-//@struct file=yarel/src/vm.rs name=Vm keepfields=ip,fiber,unsafe_fiber map "*const u8" => "usize" map "*mut ObjFiber" => "FiberPtr" addfield "pub ghost active: ObjFiber"
+//@struct file=yarel/src/vm.rs name=Vm keepfields=ip,fiber,unsafe_fiber,handling_exception map "*const u8" => "usize" map "*mut ObjFiber" => "FiberPtr" addfield "pub ghost active: ObjFiber"
 
 impl Vm {
     // the representation invariant C10 rests on
@@ -123,6 +134,7 @@ impl Vm {
     // upvalue-closing bookkeeping are concerned; the stack helpers below only touch its value stack
     pub open spec fn same_active_frames(&self, o: &Vm) -> bool {
         self.active.frames == o.active.frames && self.active.caller == o.active.caller && self.active.closed_from == o.active.closed_from
+            && self.active.has_handler == o.active.has_handler
     }
 
     // operand stack / frame helpers act on the active fiber's heap object, not on the two handles (assumed frames)
@@ -132,6 +144,13 @@ impl Vm {
     fn push(&mut self, value: Value) ensures old(self).same_fiber_handles(final(self)), old(self).same_active_frames(final(self)) { unimplemented!() }
     #[verifier::external_body]
     fn poke(&mut self, depth: usize, value: Value) ensures old(self).same_fiber_handles(final(self)), old(self).same_active_frames(final(self)) { unimplemented!() }
+    #[verifier::external_body]
+    fn peek(&self, depth: usize) -> Value { unimplemented!() }
+    #[verifier::external_body]
+    fn new_error_from_value(&mut self, value: Value) -> Error ensures old(self).same_fiber_handles(final(self)), old(self).same_active_frames(final(self)) { unimplemented!() }
+    // assumed (C04): compiled code executes CloseUpvalue only with the captured local on the stack
+    #[verifier::external_body]
+    fn stack_size(&self) -> (r: usize) ensures r >= 1 { unimplemented!() }
     #[verifier::external_body]
     fn load_frame(&mut self) ensures old(self).same_fiber_handles(final(self)), old(self).same_active_frames(final(self)) { unimplemented!() }
     // assumed: a fiber that is being switched to / from has at least one frame unless has_finished() (C02 fact of Vm)
@@ -178,6 +197,32 @@ impl Vm {
     //@  ensures final(self).coherent()
     //@  at body.start proof { self.active.closed_from = 0x7fff_ffff_ffff_ffff; }
     //@  assert @popped_frame_upvalues_closed after_stmt "self.active_fiber_mut().frames.pop()" self.active.closed_from <= old(self).active.frames@.last().slot_base
+    //@end
+
+    // C06: "a closure shares the very variable it captured ... after [the declaring scope] has exited". Whenever the VM
+    // discards value-stack slots, every captured variable living in them must have been closed (moved off the stack)
+    // first: `closed_from` (ghost) is the slot from which the most recent close_upvalues call closed everything.
+    // Exception unwinding: the handler's frame survives, everything above the handler's stack height is discarded.
+    //@fn file=yarel/src/vm.rs path=Vm::unwind_stack ret=r props=C06
+    //@  requires old(self).coherent(), old(self).fiber is Some
+    //@  ensures final(self).coherent()
+    //@  at body.start proof { self.active.closed_from = 0x7fff_ffff_ffff_ffff; }
+    //@  assert @discarded_slots_closed before_stmt "self.active_fiber_mut().stack.truncate(handler.init_stack_size)" self.active.closed_from <= handler.init_stack_size
+    //@end
+    // `return` inside a try block that has a finally clause: the try block's locals are discarded before the finally runs.
+    // (`has_handler`: JumpFinally is only emitted inside a try statement, whose handler is still installed — C08, assumed)
+    //@fn file=yarel/src/vm.rs path=Vm::jump_finally_impl props=C06
+    //@  requires old(self).coherent(), old(self).fiber is Some, old(self).active.has_handler
+    //@  ensures final(self).coherent()
+    //@  at body.start proof { self.active.closed_from = 0x7fff_ffff_ffff_ffff; }
+    //@  assert @discarded_slots_closed before_stmt "self.active_fiber_mut().stack.truncate(init_stack_size)" self.active.closed_from <= init_stack_size
+    //@end
+    // CloseUpvalue: the top slot is closed, then popped.
+    //@fn file=yarel/src/vm.rs path=Vm::close_upvalue_impl props=C06
+    //@  requires old(self).coherent(), old(self).fiber is Some
+    //@  ensures final(self).coherent()
+    //@  at body.start proof { self.active.closed_from = 0x7fff_ffff_ffff_ffff; }
+    //@  assert @popped_slot_closed before_stmt "self.pop()" self.active.closed_from <= stack_size - 1
     //@end
 }
 
